@@ -1550,6 +1550,30 @@ theorem lonIncrement_angle (f : ℝ → ℝ) (a b : V3 ℝ) (ha : hz a ≠ 0) (h
   rw [e, Complex.arg_mul_coe_angle ((map_ne_zero _).mpr ha) hb, Complex.arg_conj_coe_angle]
   abel
 
+theorem onAxis_false (f : ℝ → ℝ) (a : V3 ℝ) (ha : hz a ≠ 0) : onAxis (realFn f) a = false := by
+  unfold onAxis
+  rw [decide_eq_false_iff_not, not_le]
+  show (0 : ℝ) < Real.sqrt (a.x * a.x + a.y * a.y)
+  apply Real.sqrt_pos.mpr
+  have : a.x ≠ 0 ∨ a.y ≠ 0 := by
+    by_contra hc
+    rw [not_or, not_not, not_not] at hc
+    exact ha (Complex.ext hc.1 hc.2)
+  rcases this with h | h
+  · have := mul_self_pos.mpr h; nlinarith [mul_self_nonneg a.y]
+  · have := mul_self_pos.mpr h; nlinarith [mul_self_nonneg a.x]
+
+/-- the (axis-aware) increment of one edge -/
+noncomputable def edgeInc (f : ℝ → ℝ) (a b : V3 ℝ) : ℝ :=
+  if onAxis (realFn f) a || onAxis (realFn f) b then 0 else lonIncrement (realFn f) a b
+
+theorem edgeInc_angle (f : ℝ → ℝ) (a b : V3 ℝ) (ha : hz a ≠ 0) (hb : hz b ≠ 0) :
+    ((edgeInc f a b : ℝ) : Real.Angle)
+      = (Complex.arg (hz b) : Real.Angle) - (Complex.arg (hz a) : Real.Angle) := by
+  unfold edgeInc
+  rw [onAxis_false f a ha, onAxis_false f b hb]
+  exact lonIncrement_angle f a b ha hb
+
 /-- last element of the non-empty list `x :: l` -/
 def lastOf {α : Type} : α → List α → α
   | x, [] => x
@@ -1562,7 +1586,7 @@ theorem lastOf_append_singleton {α : Type} (x : α) (l : List α) (c : α) : la
 
 theorem telescope (f : ℝ → ℝ) (x : V3 ℝ) (l : List (V3 ℝ)) (s0 : ℝ)
     (h : ∀ v ∈ x :: l, hz v ≠ 0) :
-    (((pairs (x :: l)).foldl (fun s p => s + lonIncrement (realFn f) p.1 p.2) s0 : ℝ) : Real.Angle)
+    (((pairs (x :: l)).foldl (fun s p => s + edgeInc f p.1 p.2) s0 : ℝ) : Real.Angle)
       = (s0 : Real.Angle) + ((Complex.arg (hz (lastOf x l)) : Real.Angle)
           - (Complex.arg (hz x) : Real.Angle)) := by
   induction l generalizing x s0 with
@@ -1570,9 +1594,9 @@ theorem telescope (f : ℝ → ℝ) (x : V3 ℝ) (l : List (V3 ℝ)) (s0 : ℝ)
   | cons y t ih =>
     have hx := h x List.mem_cons_self
     have hy := h y (List.mem_cons_of_mem _ List.mem_cons_self)
-    show (((pairs (y :: t)).foldl _ (s0 + lonIncrement (realFn f) x y) : ℝ) : Real.Angle) = _
-    rw [ih y (s0 + lonIncrement (realFn f) x y) (fun v hv => h v (List.mem_cons_of_mem _ hv)),
-      Real.Angle.coe_add, lonIncrement_angle f x y hx hy]
+    show (((pairs (y :: t)).foldl _ (s0 + edgeInc f x y) : ℝ) : Real.Angle) = _
+    rw [ih y (s0 + edgeInc f x y) (fun v hv => h v (List.mem_cons_of_mem _ hv)),
+      Real.Angle.coe_add, edgeInc_angle f x y hx hy]
     show _ = (s0 : Real.Angle) + ((Complex.arg (hz (lastOf y t)) : Real.Angle) - _)
     abel
 
@@ -1588,7 +1612,7 @@ theorem winding_multiple_of_two_pi (f : ℝ → ℝ) (c : V3 ℝ) (cs : List (V3
     (h : ∀ v ∈ c :: cs, hz v ≠ 0) :
     ∃ k : ℤ, winding (realFn f) (ringEdges (c :: cs)) = k * (2 * Real.pi) := by
   have hw : winding (realFn f) (ringEdges (c :: cs))
-      = (pairs (c :: (cs ++ [c]))).foldl (fun s p => s + lonIncrement (realFn f) p.1 p.2) 0 := by
+      = (pairs (c :: (cs ++ [c]))).foldl (fun s p => s + edgeInc f p.1 p.2) 0 := by
     unfold winding ringEdges
     rw [List.foldl_map, cyc_eq_pairs]
     rfl
